@@ -112,9 +112,13 @@ func c04FormatEdges() []c04Edge {
 	// a value whose length differs from the declared value size
 	for _, l := range []int{0, 7, 9, 16} {
 		l := l
+		group := "valuelen<valuesize" // silently zero-padded?
+		if l > 8 {
+			group = "valuelen>valuesize" // silently truncated?
+		}
 		for _, n := range []int{1, 3} {
 			n := n
-			edges = append(edges, c04Edge{Name: fmt.Sprintf("valuelen=%d-for-valuesize=8,n=%d", l, n), Group: "valuelen!=valuesize", Shape: 8, Declared: uint(n),
+			edges = append(edges, c04Edge{Name: fmt.Sprintf("valuelen=%d-for-valuesize=8,n=%d", l, n), Group: group, Shape: 8, Declared: uint(n),
 				KVs: func() []c04KV {
 					kvs := few(n, 8)()
 					kvs[n/2].V = c04Value(77, l)
@@ -714,6 +718,15 @@ func c04RunEdge(R *vkit.Report, e c04Edge, c c04Case) {
 	if pn != nil {
 		R.Outcome("edge:" + e.Group + ":panic")
 		c04Viol(R, "panic", e.Group+"|"+pn.Phase, fmt.Sprintf("contract edge %q: builder accepted it, then %s", e.Name, pn), c)
+		return
+	}
+	if problem != "" && strings.HasPrefix(e.Group, "valuelen") {
+		// The statement quantifies over FIXED-SIZE values: a value whose length differs from the declared
+		// value size is outside its precondition. What the builder does with it (truncate / zero-pad)
+		// is recorded as an observation, not decided against.
+		R.Outcome("edge:" + e.Group + ":observed-not-demanded")
+		R.Add("value_length_mismatch_silently_adjusted(not demanded)", 1)
+		R.Note("[%s] edge %q: %s (observation only: values of the wrong length are outside the statement's precondition)", c04Format, e.Name, problem)
 		return
 	}
 	if problem != "" {
